@@ -402,8 +402,9 @@ impl<R: Round, const B: Word> FBig<R, B> {
 
         let repr = Repr {
             significand: IBig::ONE,
-            exponent: self.repr.exponent + self.repr.digits() as isize
-                - self.context.precision as isize,
+            // digits - precision first: exponent + digits alone can overflow next to isize::MAX
+            exponent: self.repr.exponent
+                + (self.repr.digits() as isize - self.context.precision as isize),
         };
         Self::new(repr, self.context)
     }
